@@ -375,8 +375,19 @@ fn worker_main() -> ! {
 	let scratch = util::tmp_dir();
 	let stdin = std::io::stdin();
 	let mut input = stdin.lock();
-	let stdout = std::io::stdout();
-	let mut output = stdout.lock();
+	// The code under test prints to stdout now and then (e.g. the CSV reader's error list):
+	// replies travel on a private duplicate of the pipe, fd 1 itself is pointed at /dev/null.
+	let mut output = unsafe {
+		use std::os::fd::FromRawFd;
+		let reply_fd = libc::dup(1);
+		let null = libc::open(c"/dev/null".as_ptr(), libc::O_WRONLY);
+		if reply_fd < 0 || null < 0 {
+			std::process::exit(3);
+		}
+		libc::dup2(null, 1);
+		libc::close(null);
+		std::fs::File::from_raw_fd(reply_fd)
+	};
 	let mut n = 0u64;
 	while let Some(frame) = read_frame(&mut input) {
 		let Some(case) = decode_case(&frame) else { break };
@@ -629,11 +640,13 @@ fn csv_text() -> BoxedStrategy<Vec<u8>> {
 		1 => any::<i64>().prop_map(|v| v.to_string()),
 		1 => Just(String::new()),
 	];
-	(1usize..5, proptest::collection::vec(proptest::collection::vec(cell, 5), 0..6), prop_oneof![Just("\n"), Just("\r\n")], any::<bool>())
+	(1usize..5, proptest::collection::vec((proptest::collection::vec(cell, 7), prop_oneof![8 => Just(0i8), 1 => -2i8..=2]), 0..6), prop_oneof![Just("\n"), Just("\r\n")], any::<bool>())
 		.prop_map(|(cols, rows, nl, trailing)| {
 			let mut lines: Vec<String> = vec![(0..cols).map(|i| format!("col{i}")).collect::<Vec<_>>().join(",")];
-			for r in rows {
-				lines.push(r[..cols].join(","));
+			for (r, ragged) in rows {
+				// now and then a row with fewer or more fields than the header
+				let n = (cols as i8 + ragged).clamp(1, 7) as usize;
+				lines.push(r[..n].join(","));
 			}
 			let mut t = lines.join(nl);
 			if trailing {
@@ -904,7 +917,16 @@ fn cases(entry: Entry) -> BoxedStrategy<Case> {
 				s.push_str(&" ]".repeat(n));
 				Case { entry, data: s.into_bytes(), files: vec![], origin: "nested".into() }
 			});
-			prop_oneof![8 => text_case(vpl_text(), "vpl"), 1 => random, 1 => deep].boxed()
+			if matches!(entry, Entry::Factory | Entry::PipelineFile) {
+				// the data file of vectortiles_update_properties is input, too
+				let with_csv = (csv_text(), csv_text(), muts(3), any::<bool>()).prop_map(move |(a, b, m, replace)| {
+					let text = format!("from_container filename=\"x.versatiles\" | vectortiles_update_properties data_source_path=\"data.csv\" layer_name=w id_field_tiles=k id_field_data=col0{}", if replace { " replace_properties=true" } else { "" });
+					Case { entry, origin: format!("vpl+csv:{}mut", m.len()), data: text.into_bytes(), files: vec![("data.csv".to_string(), mutate(a, &m, &b))] }
+				});
+				prop_oneof![6 => text_case(vpl_text(), "vpl"), 4 => with_csv, 1 => random, 1 => deep].boxed()
+			} else {
+				prop_oneof![8 => text_case(vpl_text(), "vpl"), 1 => random, 1 => deep].boxed()
+			}
 		}
 		Entry::Mvt => {
 			let seed = (any::<u16>(), 0u8..5, 0u32..4096, 0u32..4096).prop_map(|(t, z, x, y)| {
